@@ -272,6 +272,10 @@ class Tr:
     def call(self, n: ast.Call) -> tuple[list[str], str]:
         f = n.func
         if isinstance(f, ast.Name):
+            if f.id in self.t.ext_functions and isinstance(self.t.ext_functions[f.id][1], list):
+                num, spec = self.t.ext_functions[f.id]
+                pres, es = self.args_of(n, spec)
+                return pres, f"(Expr.call {num} {self.lst(es)})"
             if f.id == "cast" and len(n.args) == 2:
                 return self.expr(n.args[1])
             if f.id == "len" and len(n.args) == 1:
